@@ -40,6 +40,32 @@ pub struct Case {
     pub gate2: Option<Gate>,
     /// composition of the route into extend calls (sums to number of links)
     pub partition: Vec<usize>,
+    /// Some((n_fast, n_slow)): the train parameters are DERIVED by `TrainConfig::make_train_params` from a train
+    /// configuration listing a 20 m/s car type (n_fast cars) and a 12 m/s car type (n_slow cars, possibly 0); the
+    /// train's maximum speed is that of the slowest type that has cars in the train (= `speed_max` of the case)
+    #[serde(default)]
+    pub cfg: Option<(u32, u32)>,
+}
+
+/// the train parameters of a case (hand-written, or derived from a train configuration)
+pub fn case_train_params(c: &Case) -> Result<TrainParams, String> {
+    match c.cfg {
+        None => Ok(train_params(c.train_len as f64 * UNIT_M, c.speed_max)),
+        Some((nf, ns)) => {
+            use crate::domain::train::manifest;
+            let mut fast = manifest(true, false);
+            fast.car_type = "Fast".into();
+            fast.speed_max = 20.0 * uc::MPS;
+            let mut slow = manifest(false, false);
+            slow.car_type = "Slow".into();
+            slow.speed_max = 12.0 * uc::MPS;
+            let mut n: std::collections::HashMap<String, u32> = std::collections::HashMap::new();
+            n.insert("Fast".into(), nf);
+            n.insert("Slow".into(), ns);
+            let cfg = altrios_core::train::TrainConfig::new(vec![fast, slow], n, altrios_core::track::TrainType::Freight, Some(c.train_len as f64 * UNIT_M * uc::M), None, None).map_err(|e| format!("{e:#}"))?;
+            cfg.make_train_params().map_err(|e| format!("{e:#}"))
+        }
+    }
 }
 
 fn limit_type(s: &str) -> LimitType {
@@ -465,6 +491,35 @@ impl Prop for C02C13 {
 
     fn explore(&self, ctx: &mut Ctx) {
         let mut n = 0u64;
+        // ---- train parameters derived from a train configuration (car types with and without cars) ----
+        {
+            let tri = triples(6);
+            for (nf, ns, vmax) in [(5u32, 0u32, 20.0f64), (5, 1, 12.0), (0, 5, 12.0)] {
+                for head in [true, false] {
+                    if !ctx.claim() {
+                        continue;
+                    }
+                    let mut c = Case { link_len: vec![6], links: vec![vec![]], train_len: 1, head_end: head, speed_max: vmax, map_style: false, gate: None, gate2: None, partition: vec![1], cfg: Some((nf, ns)) };
+                    let tp = match case_train_params(&c) {
+                        Ok(tp) => tp,
+                        Err(e) => {
+                            ctx.violation("valid-train-rejected@TrainConfig::make_train_params", e, serde_json::to_value(&c).unwrap(), 0);
+                            continue;
+                        }
+                    };
+                    for a in 0..tri.len() {
+                        c.links[0] = vec![tri[a]];
+                        let net = build_network(&c);
+                        self.run_one(ctx, &c, &net, &tp, &mut n);
+                        for b in (a + 1)..tri.len() {
+                            c.links[0] = vec![tri[a], tri[b]];
+                            let net = build_network(&c);
+                            self.run_one(ctx, &c, &net, &tp, &mut n);
+                        }
+                    }
+                }
+            }
+        }
         // ---- single link ----
         for fam in families(ctx.tier) {
             let tri = if fam.negative { triples_with(fam.g, &[5.0, -10.0, 15.0, -15.0]) } else { triples(fam.g) };
@@ -500,6 +555,7 @@ impl Prop for C02C13 {
                                     gate: None,
                                     gate2: None,
                                     partition: vec![1],
+                                    cfg: None,
                                 };
                                 let mut net = build_network(&c);
                                 let mut any = false;
@@ -563,6 +619,7 @@ impl Prop for C02C13 {
                             gate: Some(Gate { limit_type: lt.into(), compare_type: ct.into(), limit_val }),
                             gate2: None,
                             partition: vec![1],
+                            cfg: None,
                         };
                         for first in (0..tri.len()).map(Some) {
                             for_each_set(&tri, first, if ctx.tier.is_thorough() { 2 } else { 1 }, &mut |set| {
@@ -610,6 +667,7 @@ impl Prop for C02C13 {
                         gate: Some(g1.clone()),
                         gate2: Some(g2.clone()),
                         partition: vec![1],
+                        cfg: None,
                     };
                     let (a1, a2) = (ref_gate_applies(g1, &tp), ref_gate_applies(g2, &tp));
                     ctx.sig(&format!("gate-pair:{a1}:{a2}"));
@@ -659,6 +717,7 @@ impl Prop for C02C13 {
                                 gate: None,
                                     gate2: None,
                                 partition: vec![2],
+                                cfg: None,
                             };
                             let net = build_network(&c);
                             self.run_one(ctx, &c, &net, &tp, &mut n);
@@ -681,6 +740,7 @@ impl Prop for C02C13 {
                                     gate: None,
                                     gate2: None,
                                     partition: vec![3],
+                                    cfg: None,
                                 };
                                 let net = build_network(&c);
                                 self.run_one(ctx, &c, &net, &tp, &mut n);
@@ -698,7 +758,10 @@ impl Prop for C02C13 {
             Ok(c) => c,
             Err(e) => return ReplayOutcome { violations: vec![("bad-replay-file".into(), e.to_string())], observation: String::new() },
         };
-        let tp = train_params(c.train_len as f64 * UNIT_M, c.speed_max);
+        let tp = match case_train_params(&c) {
+            Ok(tp) => tp,
+            Err(e) => return ReplayOutcome { violations: vec![("valid-train-rejected@TrainConfig::make_train_params".into(), e)], observation: String::new() },
+        };
         let net = build_network(&c);
         let mut ev = evaluate(&c, &net, &tp, false);
         let js = serde_json::to_string(&net).unwrap();
